@@ -94,13 +94,13 @@ theorem searchPasses_no_fault (classes : List (List UInt64)) (budget : Nat) :
       · simp only [hfd, Bool.false_eq_true, if_false]
         exact searchPasses_no_fault classes budget p (M + 1) rest _ _ (by omega) (by omega)
 
-theorem initialM_pos (n : Nat) : 1 ≤ initialM n := by unfold initialM; omega
+theorem initialM_pos (n : Nat) : 1 ≤ initialM n := by unfold initialM; simp only; omega
 
-/-- for every number of classes whose table exponent fits the word (`initialM n + 3 ≤ 64`, i.e. fewer than
+/-- for every number of classes whose table exponent fits the word (`initialM n + passes ≤ 65`, i.e. fewer than
     about 2^58 classes) `hash_initialize` never touches memory outside `buckets` -/
 theorem C05_search_stays_in_bounds (classes : List (List UInt64)) (budget : Nat) (mults : List UInt64) (st : HashSt)
-    (hn : initialM classes.length + 3 ≤ 64) : hashSearch classes budget mults st ≠ .fault := by
+    (hn : initialM classes.length + Generated.hashPasses ≤ 65) : hashSearch classes budget mults st ≠ .fault := by
   unfold hashSearch
-  exact searchPasses_no_fault classes budget 4 _ mults st 0 (initialM_pos _) (by omega)
+  exact searchPasses_no_fault classes budget Generated.hashPasses _ mults st 0 (initialM_pos _) hn
 
 end Yomm2.Props.C05
